@@ -389,7 +389,11 @@ def parse_res(txt):
         if not line:
             continue
         key, _, rest = line.partition(' ')
-        if key == 'parse':
+        if key == 'hang':
+            # the analysis did not terminate on this file within the harness' time limit: for the checks this is an
+            # abort like a panic (every result that is missing is PANIC); the detector that was running is recorded
+            r['hang'] = rest.strip()
+        elif key == 'parse':
             r['parse'] = rest
         elif key == 'dump':
             r['dump'] = rest
@@ -412,6 +416,12 @@ def parse_res(txt):
                 r['walk'][name] = [int(v) for v in vals.split()]
             else:
                 r['walk'][name] = [tuple(int(x) for x in v.split(':')) for v in vals.split()]
+    if r.get('hang') is not None:
+        import checks.det_common as _dc
+        for n in _dc.DETS:
+            r['det'].setdefault(n, 'PANIC')
+            r['lines'].setdefault(n, 'PANIC')
+        r['walk'] = 'PANIC'
     return r
 
 
